@@ -396,6 +396,22 @@ func (g *gen17) top(d int, allowVar, allowBot bool) *T17 {
 	return g.ty(d, allowVar, allowBot)
 }
 
+// renameVar: a copy of t with every occurrence of variable `from` renamed to `to`.
+func renameVar(t *T17, from, to string) *T17 {
+	n := t.clone()
+	var walk func(x *T17)
+	walk = func(x *T17) {
+		if x.K == "var" && x.N == from {
+			x.N = to
+		}
+		for _, a := range x.A {
+			walk(a)
+		}
+	}
+	walk(n)
+	return n
+}
+
 // replaceLeaf: a copy of t in which one sub-term (never a map key) is replaced by the
 // constant kind k (top / bot); the constant alone if t has no sub-terms.
 func replaceLeaf(t *T17, k string, r *rng) *T17 {
@@ -629,6 +645,8 @@ type Case17 struct {
 	Share bool         `json:"share"`
 	Flip  bool         `json:"flip,omitempty"` // match: ground on the left, pattern on the right
 	Sweep bool         `json:"sweep,omitempty"` // drawn from the systematic small-pair list (c17sweep.go)
+	Aim   string       `json:"aim,omitempty"`   // infer: at run time one type parameter is renamed to the very name ("t<id>" / "s<id>") the checker is about to generate for one of its own fresh variables (a legal name: fresh means fresh for the terms at hand)
+	AimJ  int          `json:"aim_j,omitempty"`
 	GC    string       `json:"gc"`             // none | dense | sparse
 	Sim   simrt.Config `json:"sim"`
 }
@@ -762,6 +780,17 @@ func genCase17(r *rng) *Case17 {
 			if len(g.vars) == 0 {
 				g.vars = []string{"a1", "a11"}
 			}
+			if r.chance(0.3) {
+				// type parameters named the way people name them (T1, S2): a letter the checker
+				// also uses for its own fresh variables, followed by a small number
+				g.vars = []string{
+					fmt.Sprintf("%s%d", r.pick([]string{"t", "s"}), 1+r.intn(60)),
+					fmt.Sprintf("%s%d", r.pick([]string{"t", "s", "a"}), 1+r.intn(60)),
+				}
+				if g.vars[0] == g.vars[1] {
+					g.vars = g.vars[:1]
+				}
+			}
 			f := &T17{K: "fun", N: "f"}
 			np := 1 + r.intn(3)
 			for i := 0; i < np; i++ {
@@ -811,6 +840,10 @@ func genCase17(r *rng) *Case17 {
 				args = &T17{K: "tuple", A: []*T17{args}}
 			}
 			c.Y = args
+			if r.chance(0.15) {
+				c.Aim = r.pick([]string{"t", "s"})
+				c.AimJ = r.intn(3)
+			}
 		} else if r.chance(0.35) {
 			// top (the universal type) absorbs on the LEFT only, at any depth (see nest below)
 			c.Mode = "top"
@@ -1053,6 +1086,29 @@ func runCase17(c *Case17) case17Result {
 		base, under, _ := underGC(c, &res, func() string {
 			return safeCall(func() string {
 				env := types.NewEnv()
+				f := f
+				if c.Aim != "" {
+					// fresh variables are <prefix><value of a process-wide counter>; the checker
+					// draws one for the overload key, one "s" per argument, then "t"
+					var id int
+					if _, err := fmt.Sscanf(types.TyVar("probe").TyVar().Name, "probe%d", &id); err == nil {
+						pv := map[string]bool{}
+						f.vars(pv)
+						var names []string
+						for v := range pv {
+							names = append(names, v)
+						}
+						sort.Strings(names)
+						n := len(c.Y.A)
+						target := fmt.Sprintf("t%d", id+n+2)
+						if c.Aim == "s" && n > 0 {
+							target = fmt.Sprintf("s%d", id+2+c.AimJ%n)
+						}
+						if len(names) > 0 && !pv[target] {
+							f = renameVar(f, names[c.AimJ%len(names)], target)
+						}
+					}
+				}
 				env.RegisterFun(mk(f))
 				var args []ast.Expr
 				for i, a := range c.Y.A {
@@ -1286,6 +1342,11 @@ type c17CaseFile struct {
 }
 
 func (c17) Batch(seed uint64, wid, batch, count int, deadline time.Time, emit func(*Record)) {
+	// the checker's fresh variables are a prefix plus the value of a process-wide counter: move
+	// the counter past the small numbers people put in their own type-parameter names
+	for i := 0; i < 300; i++ {
+		types.TyVar("burn")
+	}
 	rec := &Record{T: "batch", Counts: map[string]int64{}}
 	hset := map[uint64]struct{}{}
 	for i := 0; i < count; i++ {
